@@ -650,8 +650,8 @@ func main() {
 		"the elliptic curve in model and theorems is the reference curve of Base/Secp.lean; gocoin's limb arithmetic is tied to it by this run only (and is the subject of C08)",
 		"the reference-curve facts used by pub_commutes / ckd_pub_spec / derive_is_bip32 ((a+k mod n)G = aG + kG, parse∘serP = id on curve points, jG finite for 0<j<n) are no longer assumed: they are derived in Proofs/C14Curve.lean from C03's reference_curve_group_law / generator_order / parsePubkey_ser33 (Mathlib's Weierstrass group law; p, n prime by C08_Primes); serialize/WIF round trips import C15's Base58 decode∘encode = id",
 		"outside the model (answer `outside`): private EXTENDED keys ≡ 0 mod n (PublicFromPrivate returns nil and Child / Pub / PubAddr go on with the nil key) - the real code is RUN there all the same; the point at infinity is not serialised any more (fix for C08's api-*-identity findings): NewPrivateAddr / DecodePrivateAddr of a key ≡ 0 mod n panic, public Child with I_L·G + P = ∞ panics, DeriveNextPublic returns the zero buffer - code and model alike (corpus key-0 / key-n / infinity, keys wif-key-zero-mod-n-accepted, derive-next-public-infinity). In the outside region the code is judged by the BIP32 reference wherever that defines a result or demands a refusal; only the junk value is uncompared. Public keys with x ≥ p or x off the curve are NOT outside any more: code (since fix 54b4684a/e70a8ce2) and model refuse them / panic, corpus badPubKeys",
-		"sessions judge a transaction signature with the repository's own interpreter (script.VerifyTxScript, standard flags - the subject of C01/C03) plus an independent comparison of the public key the input carries; message / hash signatures are verified with an independent math/big ECDSA. The store model takes the list of functions that write stored keys from the source (Gen/WalletKeyStoreFacts.lean, a syntactic analysis: names, aliases, helper parameters to a fixpoint; writes through reflection / unsafe / other packages' methods on *PrivateAddr are not seen)",
-		"not covered: non-ASCII white space in mnemonics, typed passwords longer than one 1024-byte terminal read, .others imports, the -p39 prompt (passphrases at the API level only; NFKD: known finding bip39-passphrase-not-nfkd), -encrypt/-decrypt",
+		"sessions judge a transaction signature with the repository's own interpreter (script.VerifyTxScript, standard flags - the subject of C01/C03) plus an independent comparison of the public key the input carries; message / hash signatures are verified with an independent math/big ECDSA. The store model takes the list of functions that write stored keys, and the template dispatch of pkscr_to_key_idx, from the source (Gen/WalletKeyStoreFacts.lean: a syntactic, conservative analysis - names, aliases, helper parameters and results to a fixpoint; key bytes or a record handed to any callee outside a fixed reader allow-list count as written). NOT seen by those facts, guarded by the sessions only: writes inside an allow-listed reader or in another package (lib/btc, lib/secp256k1), reflection / unsafe, key bytes passed through channels, maps, package variables or non-record struct fields, goroutines, and the conditions inside the lookup loops (only their first-match shape is checked)",
+		"not covered: a typed password in a combined -sign .. -send run (asked for twice), P2PK / multisig outputs and foreign-form ADDRESSES given to -sign in sessions, non-ASCII white space in mnemonics, typed passwords longer than one 1024-byte terminal read, .others imports, the -p39 prompt (passphrases at the API level only; NFKD: known finding bip39-passphrase-not-nfkd), -encrypt/-decrypt",
 	}
 	r.Extra["observations"] = []string{
 		"HDWallet.Child never skips an index: BIP32 says I_L >= n or k_i = 0 makes index i invalid; Child reduces mod n and returns a key (theorem child_priv_never_skips; probability about 2^-127 per index; ckd_priv_spec / ckd_pub_spec are stated under exactly the guard 'CKD is defined')",
